@@ -224,6 +224,55 @@ func ruleL9(p *Prog, r *Report) {
 			}
 		})
 	}
+	// collision groups: after the group's element list changed, the spill decision (size vs per-element limit)
+	// is evaluated on every first-level success path, whether the key was new or an existing one was updated
+	for _, top := range p.TopFuncs() {
+		if recvName(top) != "inlineCollisionGroup" || top.Name() != "Set" {
+			continue
+		}
+		eachInstr(top, func(in ssa.Instruction) {
+			bo, ok := in.(*ssa.BinOp)
+			if !ok || globalLoadName(bo.Y) != "maxInlineMapElementSize" && globalLoadName(bo.X) != "maxInlineMapElementSize" {
+				return
+			}
+			n++
+			clean := true
+			why := ""
+			cd := controlDeps(top)
+			seen := map[*ssa.BasicBlock]bool{}
+			var rec func(b *ssa.BasicBlock)
+			rec = func(b *ssa.BasicBlock) {
+				if seen[b] {
+					return
+				}
+				seen[b] = true
+				for a := range cd[b] {
+					ifi := a.Instrs[len(a.Instrs)-1].(*ssa.If)
+					if _, _, isErr := errTestOf(ifi); !isErr {
+						onlyLevel := true
+						sliceContains(ifi.Cond, func(v ssa.Value) bool {
+							switch x := v.(type) {
+							case *ssa.Extract, *ssa.UnOp:
+								_ = x
+								if _, isConst := v.(*ssa.Const); !isConst {
+									if ex, ok := v.(*ssa.Extract); ok && !isErrorType(ex.Type()) {
+										onlyLevel = false
+									}
+								}
+							}
+							return false
+						}, 0, map[ssa.Value]bool{})
+						if !onlyLevel {
+							clean, why = false, "the comparison with maxInlineMapElementSize is conditioned on a result of the element update at "+p.InstrPos(ifi)
+						}
+					}
+					rec(a)
+				}
+			}
+			rec(in.Block())
+			r.Decide(clean, R, "spill-decision:"+p.Name(top), p.InstrPos(in), "the group's size is compared with the per-element limit regardless of whether a key was added or updated", "an inline collision group can outgrow the per-element limit without being moved to its own slab: "+why)
+		})
+	}
 	r.Floor(R, "child/root mutation sites", 10, n)
 }
 
